@@ -3,6 +3,8 @@
 # and library variants are (re)built by each check from /repo's current working tree.
 set -e
 cd "$(dirname "$0")"
+# regenerated sources (MV/Gen/*.lean); every check regenerates its own again on each run
+for t in tools/extract_*.py; do python3 "$t" >/dev/null 2>&1 || true; done
 (cd lean && lake build MV mvdriver)
 mkdir -p build/h out evidence
 # warm the shared library variants so the first quick check is incremental (failures here are
